@@ -76,9 +76,23 @@ Theorem C04_add_missing_spec : forall c w a,
              add_missing_post w a (apply_effects [ESetIndex i] w).
 Proof. exact cmd_add_missing_spec. Qed.
 
+(* a directory holding tracked paths that no longer exists on disk (or whose name is
+   now below a file): every tracked path beneath it is unstaged, one staging-area write
+   each; every other staged value, the work tree, refs, HEAD, logs, configs and the
+   object store are unchanged *)
+Theorem C04_add_missing_dir_spec : forall c w a,
+  IndexFacts.Canonical (idx_of w) -> (wt_stat w a = SNone \/ wt_stat w a = SNotDir) ->
+  tracked w a = false -> is_dir (idx_of w) a = true -> ignored w (x_pats c) a = false ->
+  exists tr, runs (cmd_add c [a]) w (Ok []) tr /\
+             Forall (fun e => is_idx e = true) tr /\
+             length tr = length (entries_by_dir (idx_of w) a) /\
+             add_missing_dir_post w (fun q => under_dir a q = true) (apply_effects tr w).
+Proof. exact cmd_add_missing_dir_spec. Qed.
+
 (* the whole command, any argument list, any outcome: only object and
    staging-area writes; work tree, refs, HEAD, logs, configs untouched; stored
-   objects kept; a staged value changes only at an argument or beneath one *)
+   objects kept; a staged value changes only at an argument or beneath one
+   (an existing file, or a staged path when the argument is not on disk) *)
 Theorem C04_add_frame : forall c w args r w' tr,
   IndexFacts.Canonical (idx_of w) -> run_m (cmd_add c args) w = (r, w', tr) ->
   w' = apply_effects tr w /\ Forall add_eff tr /\ same_wt w w' /\ same_meta w w' /\
@@ -87,7 +101,7 @@ Theorem C04_add_frame : forall c w args r w' tr,
 Proof. exact cmd_add_frame. Qed.
 
 Theorem C04_add_unknown_refused : forall c w args,
-  forallb (fun a => exists_on_disk w a || tracked w a)%bool args = false ->
+  forallb (fun a => exists_on_disk w a || tracked w a || is_dir (idx_of w) a)%bool args = false ->
   runs (cmd_add c args) w Err [] /\ run_m (cmd_add c args) w = (Err, w, []).
 Proof. exact cmd_add_refuses. Qed.
 
@@ -122,6 +136,7 @@ Print Assumptions C04_dir_selects_exactly.
 Print Assumptions C04_add_file_spec.
 Print Assumptions C04_add_dir_spec.
 Print Assumptions C04_add_missing_spec.
+Print Assumptions C04_add_missing_dir_spec.
 Print Assumptions C04_add_frame.
 Print Assumptions C04_add_unknown_refused.
 Print Assumptions C04_rm_dir_spec.
